@@ -108,7 +108,20 @@ Record gcst := mkGc {
   g_scanned : bool;
   g_wb : list (N * entry) }.       (* (record index, entry to write back), scan order *)
 
-Record iter := mkIt { it_txn : N; it_opts : iopts; it_db : lsm }.
+(* an open iterator holds references to the memtables and tables of the moment it was created
+   (it_db).  The ACTIVE memtable's skiplist is live: the iterator sees what is put into it later
+   (e.g. GC write-backs) until that memtable is rotated out, after which its content is frozen
+   (it_frozen). *)
+Record iter := mkIt { it_txn : N; it_opts : iopts; it_db : lsm; it_frozen : option src }.
+
+Definition freeze_iters (mt : src) (its : list (N * iter)) : list (N * iter) :=
+  map (fun p => (fst p, match it_frozen (snd p) with
+                        | None => mkIt (it_txn (snd p)) (it_opts (snd p)) (it_db (snd p)) (Some mt)
+                        | Some _ => snd p
+                        end)) its.
+
+Definition iter_db (cur : lsm) (it : iter) : lsm :=
+  mkLsm (match it_frozen it with Some m => m | None => l_mt cur end) (l_imm (it_db it)) (l_levels (it_db it)).
 
 Record xsys := mkX {
   x_sys : sys;                     (* s_db holds physical entries *)
@@ -333,6 +346,13 @@ Definition base_step (s : xsys) (o : op) : xresult :=
         else XBad 3
       else XBad 1
   | Dump dmp => if dump_eqb (view_levels v (l_levels (s_db y))) dmp then XOk s [] else XBad 1
+  | Flush id =>
+      match step y o with
+      | Ok y' => XOk (mkX y' v (x_gc s)
+                          (match l_mt (s_db y) with [] => x_iters s | mt => freeze_iters mt (x_iters s) end)
+                          (x_todel s) (x_items s) (x_dmax s)) []
+      | Bad c => XBad c
+      end
   | _ => match step y o with
          | Ok y' => XOk (set_sys s y') []
          | Bad c => XBad c
@@ -379,7 +399,7 @@ Definition xstep (s : xsys) (o : xop) : xresult :=
       end
   | ItOpen i t o =>
       match lookup (s_txns y) t with
-      | Some _ => XOk (mkX y v (x_gc s) (update (x_iters s) i (mkIt t o (s_db y))) (x_todel s) (x_items s) (x_dmax s)) []
+      | Some _ => XOk (mkX y v (x_gc s) (update (x_iters s) i (mkIt t o (s_db y) None)) (x_todel s) (x_items s) (x_dmax s)) []
       | None => XBad 2
       end
   | ItRun i seek items =>
@@ -387,7 +407,7 @@ Definition xstep (s : xsys) (o : xop) : xresult :=
       | Some it =>
           match lookup (s_txns y) (it_txn it) with
           | Some x =>
-              let its := txn_iterate (set_db y (it_db it)) x (it_opts it) seek in
+              let its := txn_iterate (set_db y (iter_db (s_db y) it)) x (it_opts it) seek in
               if entries_eqb (map (view v) its) items
               then XOk s [match x_todel s with [] => 245 | _ => 246 end] else XBad 1
           | None => XBad 2
